@@ -580,6 +580,12 @@ func (w *World) resolveLoadX(v ssa.Value, hopParams bool) ssa.Value {
 				v = sv
 				continue
 			}
+			if al == nil {
+				if cv, suffix, ok := w.ctorField(u); ok && suffix == "" {
+					v = cv
+					continue
+				}
+			}
 			return v
 		}
 		ss := w.stores[w.locKey(u.X)]
